@@ -66,6 +66,27 @@ struct Rec {
     Json to_json(bool with_align) const;
 };
 
+// ---- lattice snapshot (canonical: nodes sorted by (sf, word, fef, lef, id), links by (from, to, ef))
+struct LatNode {
+    std::string word; // dictionary spelling
+    int sf = 0, fef = 0, lef = 0;
+    int node_id = 0;
+    std::vector<int> exits, entries; // link indices
+};
+struct LatLink {
+    int from = 0, to = 0, ef = 0;
+    int32 ascr = 0;
+    const void *ptr = nullptr; // the latlink_t (valid only while the lattice is current)
+};
+struct Lat {
+    bool null = true;
+    int n_frames = 0, start = -1, end = -1;
+    std::vector<LatNode> nodes;
+    std::vector<LatLink> links;
+    std::string canon() const; // text form for comparison and digests
+};
+Lat capture_lattice(lattice_t *dag);
+
 static const int32 SCORE_SENTINEL = 0x7abcdef1;
 Rec capture(decoder_t *d);              // hyp + full segmentation + n_frames
 void capture_alignment(decoder_t *d, Rec &rec);
